@@ -145,13 +145,19 @@ def guess_would_differ(o0):
     return any((i > k) != b for i, (_, b) in enumerate(o0['rows']))
 
 
+def dclass(d):
+    """how hash_pandas_object sees a column dtype: all int widths and bool alike, floats, objects/text"""
+    d = str(d)
+    return 'i' if d.startswith(('int', 'uint', 'bool')) else 'f' if d.startswith('float') else 'o'
+
+
 def classify(r, kind, diff=None):
     spec, o0, o1 = r['spec'], r['o0'], r.get('o1')
     if kind == 'content' and diff and diff[0] == 'branch' and o0['cls'] == 'point':
         if not any(b for _, b in o0['rows']) and guess_would_differ(o0):
             return 'C06:no-desorption-mark-branches-reguessed'
     if kind == 'id' and o0['cls'] == 'point' and o1 is not None:
-        dt0, dt1 = o0['dtypes'], o1['dtypes']
+        dt0, dt1 = {c: dclass(d) for c, d in o0['dtypes'].items()}, {c: dclass(d) for c, d in o1['dtypes'].items()}
         others = [c for c in dt0 if c != 'branch' and dt0[c] != dt1.get(c)]
         if others:
             return 'C06:id-differs:column-dtype:%s->%s' % (dt0[others[0]], dt1.get(others[0]))
